@@ -15,8 +15,8 @@ NAMED = 1000
 
 NAME_MAPS: Dict[str, List[str]] = {
     'plain': ['A', 'B', 'C', 'D', 'E5', 'F'],
-    'adversarial': ['is_open', 'Pin', 'not_X', '_', '__x', 'e'],
-    'adversarial2': ['t', 'self_', 'If', 'or_1', 'x9_', 'lambda_'],
+    'adversarial': ['is_open', '_x', 'not_X', '_', '__x', 'e'],
+    'adversarial2': ['t', 'self_', 'Pin', 'or_1', '_x9_', 'lambda_'],
     'funcnames': ['exp', 'max', 'log', 'min', 'abs', 'np'],
     'vnames': [f'V{i}' for i in range(1, 61)],
     'long': ['Household_consumption_total_real', 'gross_domestic_product_2', 'k', 'V_1_2_3', 'Z' * 30, 'q_'],
